@@ -5,6 +5,8 @@ import ChibiVerif.Model.Linkage
 
 namespace ChibiVerif.Linkage
 
+variable [Rules]
+
 /-- evaluate a check on the result of a parse (for `decide`d examples and findings) -/
 def holdsOn {ε α : Type} (r : Except ε α) (p : α → Bool) : Bool :=
   match r with
